@@ -862,7 +862,9 @@ class RTCSctpTransport(AsyncIOEventEmitter):
         # is this an init?
         init_chunk = len([x for x in chunks if isinstance(x, InitChunk)])
         if init_chunk:
-            assert len(chunks) == 1
+            # an INIT chunk must not be bundled with any other chunk
+            if len(chunks) != 1:
+                return
             expected_tag = 0
         else:
             expected_tag = self._local_verification_tag
@@ -1801,7 +1803,8 @@ class RTCSctpTransport(AsyncIOEventEmitter):
             msg_type = data[0]
             if msg_type == DATA_CHANNEL_OPEN and len(data) >= 12:
                 # we should not receive an open for an existing channel
-                assert stream_id not in self._data_channels
+                if stream_id in self._data_channels:
+                    return
 
                 (
                     msg_type,
@@ -1845,8 +1848,7 @@ class RTCSctpTransport(AsyncIOEventEmitter):
 
                 # emit channel
                 self.emit("datachannel", channel)
-            elif msg_type == DATA_CHANNEL_ACK:
-                assert stream_id in self._data_channels
+            elif msg_type == DATA_CHANNEL_ACK and stream_id in self._data_channels:
                 channel = self._data_channels[stream_id]
                 channel._setReadyState("open")
         elif pp_id == WEBRTC_STRING and stream_id in self._data_channels:
